@@ -106,6 +106,31 @@ def isInside2 (R : M3 α) (verts : List (V3 α)) (pts : List (P2 α)) : List Boo
 /-- a single `(3,)` point: `np.atleast_2d` makes it a batch of one -/
 def isInside1 (R : M3 α) (verts : List (V3 α)) (p : V3 α) : List Bool := isInside R verts [p]
 
+/-! ### the glue of `Polygon.is_inside`: argument shapes, the stored normal -/
+
+/-- the `points` argument after `np.atleast_2d` when it has at most two dimensions: `rows.length`
+    rows of the common width `width` (a scalar is `(1,1)`, a 1-D array of length `w` is `(1,w)`,
+    `[]` is `(1,0)`, an empty `(0,w)` array keeps its width) -/
+structure Rows (α : Type) where
+  width : Nat
+  rows : List (List α)
+
+def rowP2 (r : List α) : P2 α := ⟨r.getD 0 (lit 0), r.getD 1 (lit 0)⟩
+def rowV3 (r : List α) : V3 α := ⟨r.getD 0 (lit 0), r.getD 1 (lit 0), r.getD 2 (lit 0)⟩
+
+/-- `Polygon.is_inside(points)` with its argument handling:
+    `points = np.atleast_2d(points)`; `if points.shape[1] == 2: hstack zeros`;
+    `np.dot(points, rotation.T)` raises `ValueError` unless the width is now 3.
+    The same rotation `R` is applied to the vertices and to the (padded) points. -/
+def isInsideArg (R : M3 α) (verts : List (V3 α)) (a : Rows α) : Except String (List Bool) :=
+  if a.width = 2 then .ok (isInside2 R verts (a.rows.map rowP2))
+  else if a.width = 3 then .ok (isInside R verts (a.rows.map rowV3))
+  else .error "ValueError"
+
+/-- direction of the normal computed by `Polygon.__init__` when none is given:
+    `np.cross(v[2] − v[1], v[0] − v[1])` (normalised afterwards) -/
+def normalDir (v0 v1 v2 : V3 α) : V3 α := V3.cross (v2 - v1) (v0 - v1)
+
 end Polygon
 
 /-- `np.isclose(z, 0)` with the default `rtol = 1e-5`, `atol = 1e-8`:
@@ -123,6 +148,15 @@ def isInside1 (r : α) (c p : V3 α) : Bool :=
 
 def isInside (r : α) (c : V3 α) (pts : List (V3 α)) : List Bool := pts.map (isInside1 r c)
 
+/-- `np.atleast_2d(points) - self.centroid`: NumPy broadcasting of an `(N, w)` array against the
+    `(3,)` centre works for `w = 3` and (every row's single entry repeated) for `w = 1`;
+    any other width raises `ValueError` -/
+def isInsideArg (r : α) (c : V3 α) (a : Polygon.Rows α) : Except String (List Bool) :=
+  if a.width = 3 then .ok (isInside r c (a.rows.map Polygon.rowV3))
+  else if a.width = 1 then .ok (isInside r c (a.rows.map fun row =>
+    let v := row.getD 0 (lit 0); ⟨v, v, v⟩))
+  else .error "ValueError"
+
 end Circle
 
 namespace Ellipse
@@ -137,6 +171,13 @@ def isInside1 (a b : α) (c p : V3 α) : Bool :=
   (decide (d.x / a ≤ lit 1) && decide (d.y / b ≤ lit 1) && true) && iscloseZero d.z
 
 def isInside (a b : α) (c : V3 α) (pts : List (V3 α)) : List Bool := pts.map (isInside1 a b c)
+
+/-- argument handling as in `Circle.isInsideArg` (same first statement) -/
+def isInsideArg (a b : α) (c : V3 α) (arg : Polygon.Rows α) : Except String (List Bool) :=
+  if arg.width = 3 then .ok (isInside a b c (arg.rows.map Polygon.rowV3))
+  else if arg.width = 1 then .ok (isInside a b c (arg.rows.map fun row =>
+    let v := row.getD 0 (lit 0); ⟨v, v, v⟩))
+  else .error "ValueError"
 
 end Ellipse
 
